@@ -571,3 +571,61 @@ Qed.
 
 Lemma groupify_length : forall {T} (d : T) gm (l : list T), length (groupify d gm l) = length gm.
 Proof. intros. unfold groupify. apply map_length. Qed.
+
+Theorem groups_partition : forall grouping, valid_grouping grouping ->
+  NoDup (concat (group_map grouping))
+  /\ (forall j, j < length grouping -> In j (concat (group_map grouping)))
+  /\ (forall j, In j (concat (group_map grouping)) -> j < length grouping).
+Proof.
+  intros grouping V. split; [apply group_map_concat_NoDup|]. split.
+  - intros j Hj. apply group_map_concat_In. apply valid_grouping_group_of; assumption.
+  - apply group_map_indices_lt.
+Qed.
+
+(* ---------- the reported entries are a rearrangement of the groups' entries ---------- *)
+Lemma map_nth_seq : forall {A} (l : list A) d, map (fun i => nth i l d) (seq 0 (length l)) = l.
+Proof.
+  induction l as [|a l IH]; intro d; simpl; [reflexivity|].
+  f_equal. rewrite <- seq_shift, map_map. simpl. apply IH.
+Qed.
+
+Lemma Forall2_from_nth : forall {A B} (P : A -> B -> Prop) (a : list A) (b : list B),
+  length a = length b ->
+  (forall t x y, nth_error a t = Some x -> nth_error b t = Some y -> P x y) -> Forall2 P a b.
+Proof.
+  induction a as [|x a IH]; intros [|y b] L H; simpl in L; try discriminate; constructor.
+  - apply (H 0); reflexivity.
+  - apply IH; [lia|]. intros t x' y' Hx Hy. apply (H (S t)); assumption.
+Qed.
+
+Theorem ungroupify_permutation : forall {T} grouping (rs : list (ginput T)) es,
+  valid_grouping grouping ->
+  ungroupify (group_map grouping) rs = Some es ->
+  length rs = length (group_map grouping) ->
+  (forall t grp r, nth_error (group_map grouping) t = Some grp -> nth_error rs t = Some r ->
+                   length (entries_of r) = length grp) ->
+  Permutation es (concat (map entries_of rs)).
+Proof.
+  intros T grouping rs es V H Lrs Hsz.
+  destruct (ungroupify_follows_boxes _ _ _ V H) as [Le Hb].
+  destruct es as [|d es'] eqn:Ees.
+  { destruct V as [Hne _]. destruct grouping; [congruence | simpl in Le; discriminate]. }
+  rewrite <- Ees in *. clear Ees es'.
+  set (box := fun i => nth i es d).
+  destruct (groups_partition _ V) as [ND [Hcov Hlt]].
+  assert (P1 : Permutation (seq 0 (length grouping)) (concat (group_map grouping))).
+  { apply NoDup_Permutation; [apply seq_NoDup | exact ND |]. intro j. rewrite in_seq. split.
+    - intros [_ Hj]. apply Hcov. exact Hj.
+    - intro Hj. apply Hlt in Hj. lia. }
+  assert (E1 : es = map box (seq 0 (length grouping))) by (rewrite <- Le; symmetry; apply map_nth_seq).
+  assert (E2 : map (map box) (group_map grouping) = map entries_of rs).
+  { assert (F : Forall2 (fun grp r => map box grp = entries_of r) (group_map grouping) rs).
+    { apply Forall2_from_nth; [symmetry; exact Lrs|]. intros t grp r Hg Hr.
+      apply nth_error_ext_eq. intro k. rewrite nth_error_map.
+      destruct (nth_error grp k) as [i|] eqn:Ei; simpl.
+      - destruct (Hb t grp r k i Hg Hr Ei) as [e [He1 He2]]. rewrite He1. f_equal. unfold box.
+        apply nth_error_nth. exact He2.
+      - symmetry. apply nth_error_None. rewrite (Hsz t grp r Hg Hr). apply nth_error_None. exact Ei. }
+    clear -F. induction F; simpl; [reflexivity | f_equal; assumption]. }
+  rewrite E1 at 1. rewrite <- E2, <- concat_map. apply Permutation_map. exact P1.
+Qed.
